@@ -11,11 +11,11 @@ ID = 'C18'
 LEVEL = 'exploration'
 RULE = ('configurations = every subset (size <=S) of {--gc 5, --gc 5 3 2, -G '
         'DEBUG_UNCOLLECTABLE, --coverage DIR, --profile cProfile, --buffer, --gc-after-test -vvvv, '
-        'warnings="error", -D with scripted stdin} x every way the test phase '
+        'warnings="error", -D with scripted stdin, --list-tests} x every way the test phase '
         'ends {all pass, failing+erroring tests, layer testSetUp raises, layer '
         'testTearDown raises, KeyboardInterrupt in a test body, '
         'KeyboardInterrupt in a test setUp, -x with a failing test, '
-        'SystemExit from a layer setUp, a test that adds warnings filters, a test that leaves sys.stdout replaced (with --buffer)}; the real Runner is run in-process and '
+        'SystemExit from a layer setUp, a test that adds warnings filters, a test that calls sys.settrace(f) and sys.settrace(None), a test that leaves sys.stdout replaced (with --buffer)}; the real Runner is run in-process and '
         'a snapshot of gc thresholds/debug flags, traceback.format_exception / '
         'print_exception, sys.settrace (the function), the active trace and '
         'profile hooks (sys and threading), warnings.filters and the identity '
@@ -24,12 +24,12 @@ RULE = ('configurations = every subset (size <=S) of {--gc 5, --gc 5 3 2, -G '
 ASSUMPTIONS = [
     'signal handlers (pdb installs a SIGINT handler) and logging handlers are not part of the stated state',
 ]
-BOUND = {'quick': 'subsets of size <=3 (130) x 10 endings', 'thorough': 'all 512 subsets x 10 endings'}
+BOUND = {'quick': 'subsets of size <=3 (176) x 11 endings', 'thorough': 'all 1024 subsets x 11 endings'}
 CHUNK = 8
 
-OPTS = ['gc1', 'gc3', 'G', 'cov', 'prof', 'buf', 'warn', 'D', 'gcat']
+OPTS = ['gc1', 'gc3', 'G', 'cov', 'prof', 'buf', 'warn', 'D', 'gcat', 'list']
 ENDS = ['normal', 'fail', 'hookS', 'hookD', 'kbint', 'kbint_setup', 'x', 'sysexit_layer',
-        'warnfilter', 'leave_replaced']
+        'warnfilter', 'leave_replaced', 'settrace']
 
 
 def cases(tier, seed):
@@ -73,6 +73,9 @@ def build(end):
     elif end == 'warnfilter':
         # a test that installs warnings filters of its own
         q1 = 'warnfilter'
+    elif end == 'settrace':
+        # a well-behaved test that installs a trace function and removes it
+        q1 = 'settrace'
     elif end == 'leave_replaced':
         q1 = 'leave_replaced'
 
@@ -106,6 +109,8 @@ def run_case(case):
         elif o == 'gcat':
             # --gc-after-test with -vvvv switches gc debug flags per test
             argv += ['--gc-after-test', '-vvvv']
+        elif o == 'list':
+            argv += ['--list-tests']
         elif o == 'D':
             argv += ['-D']
             stdin = io.StringIO('c\n' * 20)
